@@ -894,6 +894,7 @@ class Lowering:
         if lc is None:
             return []
         fs.used_lc = getattr(fs, 'used_lc', set()) | {fs.loopn}
+        self.report.setdefault('loop_contracts_applied', []).append('%s#%d' % (fs.cname, fs.loopn))
         return ['/* loop contract #%d (from spec, keyed by function and loop ordinal) */' % fs.loopn,
                 '#ifdef VERIF_CBMC'] + lc.strip().split('\n') + ['#endif']
 
@@ -1588,6 +1589,9 @@ class Lowering:
         return '((void)0)'
 
     def e_LambdaExpr(self, n, ctx):
+        op = self.stateless_lambda_op(n)
+        if op is not None:
+            return '&%s' % self.cname_for(op)
         raise Unsupported('lambda in expression position')
 
     def e_ArraySubscriptExpr(self, n, ctx):
@@ -1614,6 +1618,13 @@ class Lowering:
         t = ty(n)
         ctor_t = n['ctorType']['qualType']
         args = kids(n)
+        if '(lambda at ' in t:
+            # a capture-less lambda handed to an algorithm: its operator() is lowered as a function and the
+            # argument becomes that function's address (the algorithm's model calls it with a null closure)
+            lam = self.find_lambda(n)
+            op = self.stateless_lambda_op(lam) if lam is not None else None
+            if op is not None:
+                return '&%s' % self.cname_for(op)
         for pat in self.cfg.get('functor_types', []):
             if re.fullmatch(pat, self.strip_cvref(t)):
                 return '0'      # stateless function object: no value to carry
